@@ -7,6 +7,7 @@ package main
 
 import (
 	"fmt"
+	"go/constant"
 	"go/token"
 	"go/types"
 	"sort"
@@ -1605,9 +1606,22 @@ func (c *lexCtx) x6DelegatingEncoders() {
 			}
 			// a skip path: the edges taken must include IsNil() == true and Kind() == Interface|Pointer only
 			nilEdge, kinds, other := false, []int64{}, ""
+			infeasible := false
 			for i := 0; i+1 < len(path); i++ {
 				cond, isTrue, ok := edgeTaken(path[i], path[i+1])
 				if !ok {
+					continue
+				}
+				// a short-circuit value (`a && b` kept in a variable) is a phi: take the edge this path came through
+				if ph, isPhi := cond.(*ssa.Phi); isPhi && ph.Block() == path[i] && i > 0 {
+					if pi := predIndex(path[i], path[i-1]); pi >= 0 {
+						cond = ph.Edges[pi]
+					}
+				}
+				if k, isConst := cond.(*ssa.Const); isConst {
+					if k.Value != nil && k.Value.Kind() == constant.Bool && constant.BoolVal(k.Value) != isTrue {
+						infeasible = true
+					}
 					continue
 				}
 				switch x := cond.(type) {
@@ -1640,6 +1654,9 @@ func (c *lexCtx) x6DelegatingEncoders() {
 						kinds = append(kinds, k)
 					}
 				}
+			}
+			if infeasible {
+				continue
 			}
 			last := path[len(path)-1]
 			pos := last.Instrs[len(last.Instrs)-1].Pos()
